@@ -28,7 +28,7 @@ PROPS = {
                        " then every offered changeset must be contained, the advertised state must equal the set model of everything offered and the tables the visibility shadow"),
         "level_note": "the interleaving of the up to five concurrent process_multiple_changes jobs is scheduler-owned (sampled, not enumerated); waiting is observation of idleness (marker through the same FIFO channel + low-priority write request), not a time window; sub-campaign few-keys keeps the number of (actor, version) keys within processing_queue_len so the seen cache is never flushed wholesale",
         "rule": ("generated: 1-3 origins with 1-5 transactions, 4-23 extra partial chunks (1-2 seq ranges each) cut by the origins, 10-40 (quick) / 10-60 (thorough) arrivals picked from the pool with "
-                 "duplicates, overload window [from, from+len). Non-trivial: a re-offer round was needed, or the queue overflowed while traffic of >=2 actors arrived in the overload window. Distinct = hash of the case."),
+                 "duplicates, overload window [from, from+len); sub-campaign shed-empties: 3 origins that overwrite the same rows 2-4 times and then write one large version each, only their sync answers (current view: Empties + short chunks) offered, 150-220 arrivals under a held write connection, queue 22-26. Non-trivial: a re-offer round was needed, or the queue overflowed while traffic of >=2 actors arrived in the overload window. Distinct = hash of the case."),
         "assumptions": ["offers that hit a full ingest channel for 200 ms while the node is blocked count as lost (a timed-out peer)", "the apply loop is played by the harness (same call)"],
     },
     "C11": {
@@ -225,7 +225,7 @@ PROPS = {
         "level_note": "trusts cr-sqlite's own merge (the reference uses the same extension), the harness' capture of broadcasts and its in-process sync driver (QUIC framing and request de-duplication of parallel_sync are bypassed)",
         "rule": ("generated: 2-4 nodes, 4-20 (quick) / 4-60 (thorough) ops: Tx (1-4 statements over 6 integer keys incl. 0/127/128/255/256, composite blob+text keys, 0.3-6.3 KB payloads), "
                  "Deliver (1-5 pool picks, batch or single), Sync (32-bit loss mask, reversed order, batch or single), Serve (Full / Partial needs answered into the pool), Apply, Clear; then Quiesce. "
-                 "Non-trivial: >=2 writers touched one cell AND a message was dropped, duplicated, reordered or delivered as a partial chunk. Distinct = hash of the op list."),
+                 "Non-trivial: >=2 writers touched one cell AND a message was dropped, duplicated, reordered or delivered as a partial chunk. Distinct = hash of the op list. Fix-point differences confined to rows that two different nodes deleted locally with the same causal length match the known finding C01-concurrent-deletes-declared-empty-crosswise and are tolerated and counted."),
         "assumptions": ["fair schedule = rounds of all ordered pairs syncing without loss plus apply/clear, until a round produces no answer (max 12 rounds)",
                         "a node never receives changesets of its own actor (skipped by the interpreter)"],
     },
